@@ -546,14 +546,28 @@ def rule_R8(body: str, log, where):
         mask = mask_rust(body)
         done = True
         for m in re.finditer(r"\bif\b", mask):
-            # condition up to the `{` at depth 0
-            k, depth = m.end(), 0
+            # condition up to the `{` at depth 0 - braces of a struct PATTERN (`let P { a, b } = e`) belong to the condition
+            k, depth, in_pat, after_match, bdepth = m.end(), 0, False, False, 0
             while k < len(mask):
                 ch = mask[k]
+                isw = not (k > 0 and (mask[k - 1].isalnum() or mask[k - 1] == "_"))
+                if depth == 0 and isw and re.match(r"let\b", mask[k:k + 4]):
+                    in_pat = True
+                if depth == 0 and isw and re.match(r"match\b", mask[k:k + 6]):
+                    after_match = True        # the next `{ .. }` is the body of a `match` inside the condition
                 if ch in "([":
                     depth += 1
                 elif ch in ")]":
                     depth -= 1
+                elif ch == "{" and (in_pat or after_match or bdepth > 0):
+                    depth += 1
+                    bdepth += 1
+                    after_match = False
+                elif ch == "}" and bdepth > 0:
+                    depth -= 1
+                    bdepth -= 1
+                elif ch == "=" and depth == 0 and in_pat and mask[k + 1:k + 2] not in ("=", ">") and mask[k - 1:k] not in ("=", "<", ">", "!"):
+                    in_pat = False
                 elif ch == "{" and depth == 0:
                     break
                 elif ch in ";}" and depth == 0:
@@ -1361,7 +1375,7 @@ def generate(unit, template_path, canary=False, extra_fns=(), drop_hints=()):
                     g.rewrites.append({"rule": rule, "where": where, "before": "/" + frm + "/", "after": to, "count": cnt})
                     body = new_body
             body = rule_R4(body, g.rewrites, where)
-            if re.search(r"&&\s*let\b|\bif\s+let\b[^{;]*&&", mask_rust(body)):
+            if "&&" in body and re.search(r"\bif\b[^;]*?\blet\b", mask_rust(body), re.S):
                 body = rule_R8(body, g.rewrites, where)
             if re.search(r"\bmatch\b", mask_rust(body)) and re.search(r"\bif\b[^{};]*=>", mask_rust(body)):
                 body = rule_R19(body, g.rewrites, where)
